@@ -27,9 +27,9 @@ m = {
     "hooks": {
         "guard": "compio_verif",
         "enable": "RUSTFLAGS='--cfg compio_verif' (set in /verif/harness/.cargo/config.toml for every harness build)",
-        "baseline_off_cmd": "cd /repo && cargo test --workspace --no-fail-fast --offline",
+        "baseline_off_cmd": "cd /repo && cargo nextest run --workspace --no-fail-fast --tool-config-file pb:/w/lib/nextest.toml --profile pb --test-threads 8 --offline  (fallback: cargo test --workspace --no-fail-fast --offline)",
         "source_commits": HOOK_COMMITS,
-        "add_only": True,
+        "add_only": False,  # one existing line changed: compio-executor check-cfg list gains cfg(compio_verif)
     },
     "engines": [
         {"name": "lean-models", "path": "lean", "serves_properties": sorted(PROPS),
